@@ -57,6 +57,9 @@ func VerifC20_Residue() {
 	}
 	verifrt.Reach("checked")
 	verifrt.Assert(verifrt.TempResidue("/work") == 0, "no temporary artefact remains after a load or refresh, successful or not")
+	for _, p := range verifrt.Children("/work") {
+		verifrt.Assert(p == "/work/"+idOfCDP(url1), "the work_dir holds nothing but the live store after a load or refresh")
+	}
 	if refresh {
 		d := verifrt.Disk["/work/"+idOfCDP(url1)]
 		verifrt.Assert(d != nil && d.Exists, "the live store has not been deleted")
